@@ -238,7 +238,10 @@ def snapshot(mm):
         return None
     res = [(id(i.resource), tuple(i.path), i.start, i.end, i.width) for i in mm.all_resources()]
     wins = [(id(w), n, r) for w, n, r in mm.windows()]
-    return res, wins
+    # whether the map still accepts additions is part of its state (observed through the private flag so that observing does not
+    # change the map); the flags of the window maps too
+    frozen = [getattr(mm, "_frozen", None)] + [getattr(w, "_frozen", None) for w, n, r in mm.windows()]
+    return res, wins + [("frozen", None, tuple(frozen))]
 
 
 class _Timeout(Exception):
